@@ -12,12 +12,16 @@ def instances(tier):
         yield 'core5', dict(BASE, max_len=5, win_end=12), 'AlphaC08core', None
         yield 'nest6', dict(BASE, max_len=6, win_end=12), 'AlphaC08nest', None
         yield 'inc6', dict(BASE, max_len=6, win_end=12, emit_inv='EmitInc'), 'AlphaC08inc', None
+        yield 'core4-tabs', dict(BASE, max_len=4, win_end=12, directive_tabs=True), 'AlphaC08core', None
+        yield 'nest5-tabs', dict(BASE, max_len=5, win_end=12, directive_tabs=True), 'AlphaC08nest', None
         yield 'wide3', dict(BASE, max_len=3, win_end=12), 'AlphaC08wide', None
         yield 'wide-sim8', dict(BASE, max_len=8, win_end=12), 'AlphaC08wide', 'num=4000'
     else:
         yield 'core6', dict(BASE, max_len=6, win_end=12), 'AlphaC08core', None
         yield 'nest8', dict(BASE, max_len=8, win_end=12), 'AlphaC08nest', None
         yield 'inc7', dict(BASE, max_len=7, win_end=12, emit_inv='EmitInc'), 'AlphaC08inc', None
+        yield 'core5-tabs', dict(BASE, max_len=5, win_end=12, directive_tabs=True), 'AlphaC08core', None
+        yield 'nest7-tabs', dict(BASE, max_len=7, win_end=12, directive_tabs=True), 'AlphaC08nest', None
         yield 'wide4', dict(BASE, max_len=4, win_end=12), 'AlphaC08wide', None
         yield 'wide-sim10', dict(BASE, max_len=10, win_end=12), 'AlphaC08wide', 'num=40000'
 
